@@ -279,7 +279,7 @@ class ForwardScheduler(IScheduler):
 
         is_leaf = len(_task.children) == 0
 
-        if _task.milestone:
+        if _task.milestone and is_leaf:
             _task.start = _task.end = max_predecessor_ends
             _task.estimate = 0
             _task.spent = 0
@@ -469,7 +469,7 @@ class BackwardScheduler(IScheduler):
 
         is_leaf = len(_task.children) == 0
 
-        if _task.milestone:
+        if _task.milestone and is_leaf:
             _task.start = _task.end = min_successor_starts
             _task.estimate = 0
             _task.spent = 0
